@@ -3,6 +3,8 @@ package rules
 import (
 	"fmt"
 	"go/token"
+	"go/types"
+	"sort"
 	"strings"
 
 	"golang.org/x/tools/go/ssa"
@@ -14,7 +16,7 @@ import (
 
 func init() {
 	register(&Check{ID: "C20", Run: runC20, Configs: []load.Config{{Tags: "unsafe"}}, Expl: oblig.Explanation{
-		Text:        "Wire-length taint analysis over the reflective protocol stack (package protocol and its sub-packages). Sources: every value returned by the decoder's fixed-width and varint readers and by encoding/binary on received bytes. Taint propagates through conversions, ±constant arithmetic, phis, local variables, struct fields and, interprocedurally, parameters. Sinks: make() length/capacity, reflect.MakeSlice counts, slice-expression bounds, stores into a decoder's `remain`, and loops whose trip count is a wire value with no exit on the decoder state. A sink is discharged only if on every path to it the value is proven non-negative (sign guards, unsigned provenance, caller guards at every call site) and bounded above (comparison with the decoder's remaining bytes, a length or a constant; 16-bit provenance), or if it is dominated by a verified checksum. Unsigned→signed conversions lose the lower bound unless an upper bound was established first. Not decided: proportionality of allocation to bytes actually received when the frame size itself lies (recorded as a known finding), panics not driven by lengths.",
+		Text:        "Wire-length taint analysis over the reflective protocol stack (package protocol and its sub-packages). Sources: every value returned by the decoder's fixed-width and varint readers and by encoding/binary on received bytes. Taint propagates through conversions, ±constant arithmetic, phis, local variables, struct fields and, interprocedurally, parameters. Sinks: make() length/capacity, reflect.MakeSlice counts, slice-expression bounds, stores into a decoder's `remain`, and loops whose trip count is a wire value (counted up or down) with no exit on the decoder's error state (a test of `remain` alone does not count: it stops decreasing after a failed read). A sink is discharged only if on every path to it the value is proven non-negative (sign guards, unsigned provenance, caller guards at every call site) and bounded above (comparison with the decoder's remaining bytes, a length or a constant; 16-bit provenance), or if it is dominated by a verified checksum. Unsigned→signed conversions lose the lower bound unless an upper bound was established first. Not decided: proportionality of allocation to bytes actually received when the frame size itself lies (recorded as a known finding), panics not driven by lengths.",
 		Rule:        "one obligation per (function, sink kind, taint source); non-trivial = tainted sink reached by the propagation",
 		Trusted:     []string{"go/ssa", "taint propagation and bound inference (internal/an/taint.go)", "bound expressions: decoder.remain, len(x), constants"},
 		Assumptions: []string{"every array element occupies at least one byte on the wire (C04.R2), so a count bounded by the remaining bytes is a valid bound", "fields protected by a verified CRC are outside the property's quantifier"},
@@ -97,9 +99,103 @@ func runC20(p *load.Program, r *oblig.Report) {
 		}
 		// two obligations per sink, so that a recorded finding about one bound never hides the other
 		r.Check(s.Lo || crcOK, rule, construct+" | non-negative", pos, "wire-derived length proven >= 0 on every path to this "+s.Kind, "no guard proves the value non-negative", facts...)
-		r.Check(s.Hi || crcOK, rule, construct+" | bounded above", pos, "wire-derived length bounded by the remaining bytes, a length or a constant on every path to this "+s.Kind, "no guard bounds the value by the remaining bytes, a length or a constant", facts...)
+		expHi, foundHi := "wire-derived length bounded by the remaining bytes, a length or a constant on every path to this "+s.Kind, "no guard bounds the value by the remaining bytes, a length or a constant"
+		if s.Kind == "loop-count" {
+			expHi = "a loop counted by a wire value leaves when the decoder has failed (tests d.err or d.done()), or its count is bounded by a constant"
+			foundHi = "the loop only tests the remaining bytes, which stop decreasing once a read has failed: after a short read it runs for the whole announced count"
+		}
+		r.Check(s.Hi || crcOK, rule, construct+" | bounded above", pos, expHi, foundHi, facts...)
 	}
 	r.RequireCount(rule, len(sinks), 9)
+	c20FixedOffsets(p, r)
+}
+
+// c20FixedOffsets: RecordSet.ReadFrom looks at the magic byte of the next batch, at a fixed offset, before decoding
+// it. The guard on the remaining bytes must cover that offset: remain >= offset+1 on every path to the peek, the index
+// and the scratch read (an off-by-one makes a 16-byte tail panic, or block waiting for a byte that is not part of the
+// frame).
+func c20FixedOffsets(p *load.Program, r *oblig.Report) {
+	const rule = "C20.R2 fixed offsets into a frame are covered by the length guard"
+	fn := p.Func("protocol", "(*RecordSet).ReadFrom")
+	if fn == nil {
+		r.Lost(rule, "protocol.(*RecordSet).ReadFrom")
+		return
+	}
+	// the guard: `d.remain < K` leaves (break/return); on the other edge remain >= K
+	var guardK int64 = -1
+	var covered *ssa.BasicBlock
+	for _, b := range an.Blocks(fn) {
+		_, ci := an.IfCond(b)
+		if ci == nil || !strings.HasSuffix(clean(an.Shape(ci.X)), ".remain") {
+			continue
+		}
+		k, isK := an.ConstInt(ci.Y)
+		if !isK || k <= 1 {
+			continue
+		}
+		switch ci.Op {
+		case token.LSS: // remain < K
+			guardK, covered = k, b.Succs[1]
+		case token.GEQ: // remain >= K
+			guardK, covered = k, b.Succs[0]
+		case token.LEQ: // remain <= K-1
+			guardK, covered = k+1, b.Succs[1]
+		case token.GTR: // remain > K-1
+			guardK, covered = k+1, b.Succs[0]
+		}
+		if ci.Neg && covered != nil {
+			if covered == b.Succs[0] {
+				covered = b.Succs[1]
+			} else {
+				covered = b.Succs[0]
+			}
+		}
+	}
+	if covered == nil {
+		r.Bad(rule, "protocol.(*RecordSet).ReadFrom → guard on the remaining bytes before the magic byte is examined", p.Pos(fn.Pos()), "if d.remain < magicByteOffset+1 { … }", "not found")
+		return
+	}
+	n := 0
+	var bad []string
+	need := func(what string, k int64, at ssa.Instruction) {
+		n++
+		if len(covered.Instrs) == 0 || !an.Dominates(covered.Instrs[0], at) {
+			bad = append(bad, fmt.Sprintf("%s at %s is not under the guard", what, p.Pos(at.Pos())))
+			return
+		}
+		if k > guardK {
+			bad = append(bad, fmt.Sprintf("%s at %s needs %d bytes, the guard ensures %d", what, p.Pos(at.Pos()), k, guardK))
+		}
+	}
+	an.EachInstr(fn, func(ins ssa.Instruction) {
+		switch x := ins.(type) {
+		case *ssa.Call:
+			if x.Call.IsInvoke() && x.Call.Method.Name() == "Peek" {
+				if k, ok := an.ConstInt(x.Call.Args[0]); ok {
+					need("Peek", k, x)
+				}
+			}
+		case *ssa.IndexAddr:
+			if k, ok := an.ConstInt(x.Index); ok && k > 0 {
+				if sl, isSl := x.X.Type().Underlying().(*types.Slice); isSl {
+					if b, isB := sl.Elem().Underlying().(*types.Basic); isB && b.Kind() == types.Byte {
+						need("index", k+1, x)
+					}
+				}
+			}
+		case *ssa.MakeSlice:
+			if k, ok := an.ConstInt(x.Len); ok && k > 1 {
+				if sl, isSl := x.Type().Underlying().(*types.Slice); isSl {
+					if b, isB := sl.Elem().Underlying().(*types.Basic); isB && b.Kind() == types.Byte {
+						need("scratch read", k, x)
+					}
+				}
+			}
+		}
+	})
+	sort.Strings(bad)
+	r.Check(n >= 3 && len(bad) == 0, rule, "protocol.(*RecordSet).ReadFrom examines the magic byte only when the remaining bytes include it", p.Pos(fn.Pos()),
+		fmt.Sprintf("remain >= %d on every path to the peek, the index and the scratch read (%d sites)", guardK, n), strings.Join(bad, "; "))
 }
 
 // crcCovered: the sink is dominated by the match edge of a checksum comparison in the same function.
